@@ -109,6 +109,10 @@ def classify_guard(comp: Competition, u: UpdateSite, g: Term, pol: bool, weight:
     if weight is not None and t[0] == "not" and t[1][0] == "call" and t[1][1] in (("mod", "numpy.isnan"), ("mod", "math.isnan")) \
             and t[1][2] == (weight,):
         return "weight-prefilter(nan)"
+    # `if w < 0: continue` in a forest over path costs max(cost, w): the properties about these forests quantify over
+    # non-negative dissimilarities, where the test never skips anything
+    if weight is not None and comp.policy == "min" and t == ("cmp", "<=", ("const", 0), weight):
+        return "weight-prefilter(sign)"
     if t[0] == "cmp":
         op, l, r = t[1], t[2], t[3]
         # `if removed_so_far == n_nodes: break` before the scan: once every node has left the queue all of them are BLACK
